@@ -5,6 +5,7 @@ import (
 	_ "verifharness/internal/beaconblock"
 	_ "verifharness/internal/beaconepoch"
 	_ "verifharness/internal/c19"
+	_ "verifharness/internal/chain"
 	_ "verifharness/internal/config"
 	_ "verifharness/internal/faults"
 	_ "verifharness/internal/fc"
